@@ -2,35 +2,50 @@
     evaluation half): instance [G := valid], [Total := True] of Proofs/XPathInv.v. *)
 From Coq Require Import List NArith Bool Lia.
 From XmlRs Require Import Base.CPred Base.NList Base.Float64.
+From XmlRs Require Import Spec.XPathCore Model.XPathFuncs.
 From XmlRs Require Import Model.XPathAst Model.XDoc Model.XPathScalar Model.XPathEval.
 From XmlRs Require Import Proofs.XPathEvalEqs Proofs.XPathNav Proofs.XPathSort Proofs.XPathAstPred
   Proofs.XPathInv Proofs.XPathCtx.
 Import ListNotations.
 Open Scope N_scope.
 
-(** the scalar functions other than [substring] do not panic when called with at least the
-    minimum number of arguments of the function table *)
+(** the scalar functions do not panic when called with at least the minimum number of arguments
+    of the function table, and never ask for the node *)
 Lemma scalar_fn_no_panic sv local sargs mn mx :
-  not_substring local = true -> find_func local = Some (mn, mx) -> mn <= len sargs ->
-  scalar_fn sv local sargs <> RPanic.
+  find_func local = Some (mn, mx) -> mn <= len sargs -> scalar_fn sv local sargs <> RPanic.
 Proof.
-  intros Hns Hfind Harity. unfold scalar_fn.
+  intros Hfind Harity. unfold scalar_fn.
   repeat match goal with
   | |- (if str_eqb local ?name then _ else _) <> RPanic =>
       let E := fresh "E" in
       destruct (str_eqb local name) eqn:E;
       [ apply str_eqb_eq in E; subst local; vm_compute in Hfind; inversion Hfind; subst mn mx;
+        unfold m_string, m_concat, m_starts_with, m_contains, m_substring_before, m_substring_after,
+          m_substring, m_string_length, m_normalize_space, m_translate, m_boolean, m_not, m_ftrue,
+          m_ffalse, m_number, m_floor, m_ceiling, m_round;
         try discriminate;
         repeat (match goal with
                 | |- match ?l with _ => _ end <> RPanic =>
                     destruct l; [cbn [len] in Harity; lia|]
-                | |- match ?l with _ => _ end <> RPanic =>
-                    destruct l; try discriminate
                 end); try discriminate
       | ]
   end.
-  all: try (vm_compute in Hns; discriminate).
-  all: try discriminate.
+  discriminate.
+Qed.
+
+Lemma scalar_fn_no_node sv local sargs : scalar_fn sv local sargs <> RNeedsNode.
+Proof.
+  unfold scalar_fn.
+  repeat match goal with
+  | |- (if ?b then _ else _) <> RNeedsNode => destruct b
+  end;
+  unfold m_string, m_concat, m_starts_with, m_contains, m_substring_before, m_substring_after,
+    m_substring, m_string_length, m_normalize_space, m_translate, m_boolean, m_not, m_ftrue,
+    m_ffalse, m_number, m_floor, m_ceiling, m_round;
+  try discriminate;
+  repeat (match goal with
+          | |- match ?l with _ => _ end <> RNeedsNode => destruct l
+          end); discriminate.
 Qed.
 
 Section Total.
@@ -64,10 +79,11 @@ Theorem eval_total_lemma (e : expr) (n : node) (c : ctx) :
 Proof.
   intros Hok Vn.
   pose proof (eval_inv_all doc Hwf (valid doc) (fun i H => H) valid_children
-                valid_parent (wf_root doc Hwf) any_axis parses not_substring True valid_axis) as H.
+                valid_parent (wf_root doc Hwf) any_axis parses any_str True valid_axis) as H.
   destruct H as [Hor _].
   - intros _ s Hs. unfold parses in Hs. destruct (rust_parse_f64 s); [discriminate|discriminate].
-  - intros _ sv local sargs mn mx. apply scalar_fn_no_panic.
+  - intros _ sv local sargs mn mx _. apply scalar_fn_no_panic.
+  - intros _. apply scalar_fn_no_node.
   - specialize (Hor e Hok n Vn c). unfold eval_expr.
     destruct (fst (eval_or_expr doc e n c)); cbn [rinv] in Hor; split; try discriminate;
       exfalso; apply Hor; exact I.
